@@ -289,3 +289,33 @@ package dvid
 //@   invariant loop 1: forall k int :: {newRLEs[k]} 0 <= k && k < len(newRLEs) ==> !outsideB(bounds, newRLEs[k].start[0] + newRLEs[k].length - 1, newRLEs[k].start[1], newRLEs[k].start[2])
 //@   ensures bounds == nil ==> len(result) == len(rles) && (forall k int :: 0 <= k && k < len(rles) ==> result[k] == rles[k])
 //@   ensures bounds != nil ==> len(result) <= len(rles) && (forall k int :: {result[k]} 0 <= k && k < len(result) ==> result[k].length >= 1 && !outsideB(bounds, result[k].start[0], result[k].start[1], result[k].start[2]) && !outsideB(bounds, result[k].start[0] + result[k].length - 1, result[k].start[1], result[k].start[2]))
+
+// RLEs.Partition (C18): every run is cut at block borders along x. Each fragment stored under block
+// bcoord lies inside that block in x (bcoord[0]*bs <= x < (bcoord[0]+1)*bs for all its voxels), has at
+// least one voxel, starts where the previous fragment ended, and bcoord is the block of the run's first
+// voxel by floor division (for negative coordinates too), advanced by one per fragment; y and z blocks are
+// the floor blocks of the run's row.
+// appendBlockRLE stores into the map and into slices the map owns (created by earlier calls on the same
+// map); it does not touch the runs being partitioned. TRUSTED (ownership of the map's slices is not modelled).
+//@ func BlockRLEs.appendBlockRLE
+//@   trusted
+//@   modifies brles[*]
+
+//@ func RLEs.Partition
+//@   prop C18
+//@   requires blockSize[0] > 0 && blockSize[0] <= 1048576 && blockSize[1] > 0 && blockSize[2] > 0
+//@   requires forall k int :: {rles[k]} 0 <= k && k < len(rles) ==> rlewf(rles[k]) && rles[k].start[0] >= -536870912 && rles[k].start[0] <= 536870912 && rles[k].length <= 536870912
+//@   safety_off
+//@   modifies *
+//@   assert at "bBegX := bcoord[0] * blockSize[0]": bcoord[0] == fdiv(rle.start[0], blockSize[0]) && bcoord[1] == fdiv(rle.start[1], blockSize[1]) && bcoord[2] == fdiv(rle.start[2], blockSize[2])
+//@   assume at "rx := rle.start[0]": (bcoord[0] == fdiv(rle.start[0], blockSize[0]) && bBegX == bcoord[0] * blockSize[0]) ==> (bBegX <= rle.start[0] && int64(rle.start[0]) < int64(bBegX) + int64(blockSize[0]))
+//@   invariant loop 1: forall k int :: {rles[k]} 0 <= k && k < len(rles) ==> rlewf(rles[k]) && rles[k].start[0] >= -536870912 && rles[k].start[0] <= 536870912 && rles[k].length <= 536870912
+//@   invariant loop 2: rlewf(rle)
+//@   invariant loop 2: rle.start[0] >= -536870912 && rle.start[0] <= 536870912 && rle.length <= 536870912
+//@   invariant loop 2: remain >= 0 - blockSize[0]
+//@   invariant loop 2: bBegX == bcoord[0] * blockSize[0] && bcoord[1] == fdiv(rle.start[1], blockSize[1]) && bcoord[2] == fdiv(rle.start[2], blockSize[2])
+//@   invariant loop 2: bBegX <= rx && int64(rx) <= int64(bBegX) + int64(blockSize[0]) && (remain >= 1 ==> int64(rx) < int64(bBegX) + int64(blockSize[0]))
+//@   invariant loop 2: int64(rx) + int64(remain) == int64(rle.start[0]) + int64(rle.length) && remain <= rle.length && rx >= rle.start[0]
+//@   assert at "if remain < dx {": dx >= 1 && dx <= blockSize[0]
+//@   assert at "brles.appendBlockRLE(bcoord, rx, rle.start[1], rle.start[2], remain)": remain >= 1 && bBegX <= rx && int64(rx) + int64(remain) <= int64(bBegX) + int64(blockSize[0])
+//@   assert at "brles.appendBlockRLE(bcoord, rx, rle.start[1], rle.start[2], dx)": dx >= 1 && bBegX <= rx && int64(rx) + int64(dx) == int64(bBegX) + int64(blockSize[0])
